@@ -119,4 +119,38 @@ pub proof fn lemma_open_isolation(blocks: Seq<Seq<u8>>, q: RdPos, within: bool, 
     lemma_replay_isolation(read_all(blocks, q, within, buf), v, v, k);
 }
 
+/// an entry that is not addressed to queue k (or does not decode) is not among k's entries: removing it does not change them
+pub proof fn lemma_proj_remove(es: Seq<Seq<u8>>, j: int, k: String)
+    requires
+        0 <= j < es.len(),
+        parse_entry(es[j]) matches Some(e) ==> skey(e.queue) != k,
+    ensures proj_entries(es.remove(j), k) == proj_entries(es, k),
+    decreases es.len(),
+{
+    if j == 0 {
+        assert(es.remove(0) =~= es.skip(1));
+    } else {
+        let r = es.remove(j);
+        assert(r[0] == es[0]);
+        assert(r.skip(1) =~= es.skip(1).remove(j - 1));
+        assert(es.skip(1)[j - 1] == es[j]);
+        lemma_proj_remove(es.skip(1), j - 1, k);
+    }
+}
+
+/// L-C09/C18 (other queues): when one WAL entry is lost (its frame damaged: vdamage::lemma_one_damaged_entry_replay) and recovery still succeeds,
+/// every queue OTHER than the one the lost entry was addressed to is recovered exactly as without the damage -- existence, retained records, next position
+pub proof fn lemma_lost_entry_other_queues(es: Seq<Seq<u8>>, j: int, v: LogView, k: String)
+    requires
+        0 <= j < es.len(),
+        parse_entry(es[j]) matches Some(e) ==> skey(e.queue) != k,
+        replay_bytes(es, v) is Some,
+        replay_bytes(es.remove(j), v) is Some,
+    ensures agree_on(replay_bytes(es, v).unwrap(), replay_bytes(es.remove(j), v).unwrap(), k),
+{
+    lemma_proj_remove(es, j, k);
+    lemma_replay_isolation(es, v, v, k);
+    lemma_replay_isolation(es.remove(j), v, v, k);
+}
+
 } // verus!
